@@ -11,6 +11,7 @@ mod parsites;
 mod instrspec;
 mod codestart;
 mod parsearms;
+mod emitorder;
 
 pub fn rust_files(dir: &Path, out: &mut Vec<PathBuf>) {
     let mut entries: Vec<_> = fs::read_dir(dir).unwrap().map(|e| e.unwrap().path()).collect();
@@ -43,6 +44,7 @@ fn main() {
             "instrspec" => ("InstrSpec.lean", instrspec::generate(&repo)),
             "codestart" => ("CodeStart.lean", codestart::generate(&repo)),
             "parsearms" => ("ParseArms.lean", parsearms::generate(&repo)),
+            "emitorder" => ("EmitOrder.lean", emitorder::generate(&repo)),
             other => {
                 eprintln!("unknown target {}", other);
                 std::process::exit(2);
